@@ -1,7 +1,7 @@
 (* C02 — Standard combination equals the sparse-grid interpolant. Property theorems only. *)
 From Coq Require Import ZArith List Bool QArith Qcanon Lia.
 From SG Require Import Base.QcUtil Model.CombiScheme Model.StdCombi Proofs.SchemeBasics Proofs.SchemeIE Proofs.SchemeInv
-  Proofs.SchemeStd Proofs.CombiAbstract Proofs.StdGrid Proofs.StdCombiSum.
+  Proofs.SchemeStd Proofs.CombiAbstract Proofs.StdGrid Proofs.StdCombiSum Proofs.NodalExact Proofs.StdNodal.
 Import ListNotations.
 Local Open Scope Z_scope.
 
@@ -46,6 +46,35 @@ Theorem C02_union_contains_sparse_grid : forall bd a b s x k,
   exists l c, In (l, c) (combi_scheme_adaptive s) /\ c <> 0 /\ in_comp bd a b x l = true.
 Proof. exact adaptive_union_contains_sparse_grid. Qed.
 Print Assumptions C02_union_contains_sparse_grid.
+
+(* NODAL EXACTNESS: the combined interpolant reproduces an ARBITRARY function f at every point of the combined grid,
+   for every box a < b, boundary points on or off (values on the boundary taken as zero when off), every dimension;
+   for every reachable adaptive scheme ... *)
+Theorem C02_nodal_exact_adaptive : forall bd a b s (f : list Qc -> Qc) x l0 c0,
+  Inv s -> 0 <= s_lmin s -> box_ok a b -> length a = s_dim s -> length b = s_dim s -> length x = s_dim s ->
+  In (l0, c0) (combi_scheme_adaptive s) -> in_comp bd a b x l0 = true ->
+  combi_interp bd a b (combi_scheme_adaptive s) f x = f x.
+Proof. exact adaptive_nodal_exact. Qed.
+Print Assumptions C02_nodal_exact_adaptive.
+
+(* ... and for the closed-form scheme of StandardCombi whenever the verified checker accepts (d, lmin, lmax) *)
+Theorem C02_nodal_exact_closed_form : forall bd a b n lmin lmax (f : list Qc -> Qc) x l0 c0,
+  std_perm_check (S n) lmin lmax = true ->
+  box_ok a b -> length a = S n -> length b = S n -> length x = S n ->
+  In (l0, c0) (combi_scheme_standard (S n) lmin lmax) -> in_comp bd a b x l0 = true ->
+  combi_interp bd a b (combi_scheme_standard (S n) lmin lmax) f x = f x.
+Proof. exact std_nodal_exact. Qed.
+Print Assumptions C02_nodal_exact_closed_form.
+
+(* the abstract statement both are instances of (any point type, any nested family with the Kronecker property) *)
+Theorem C02_nodal_exact_abstract : forall (X : Type) lmin idx cs (Es : list (Z -> fnl X)) (M : nat),
+  (forall l c, In (l, c) cs -> length l = length Es /\ Forall (fun v => lmin <= v <= lmin + Z.of_nat M) l) ->
+  (forall l, length l = length Es -> Forall (fun v => lmin <= v) l -> dominating_sum cs l = if mem l idx then 1 else 0) ->
+  (forall k j, In k idx -> length j = length k -> Forall2 (fun a b => lmin <= a <= b) j k -> In j idx) ->
+  forall ks x (f : list X -> Qc), krons X lmin Es ks x -> In ks idx -> Forall (fun v => lmin <= v <= lmin + Z.of_nat M) ks ->
+  combined X cs Es f = f x.
+Proof. exact nodal_exact. Qed.
+Print Assumptions C02_nodal_exact_abstract.
 
 (* non-vacuity: d=2, lmin=1, lmax=3 on [0,1]x[0,2]; the point (1/4, 1) lies in grid (2,1); the checker accepts *)
 Example C02_nonvacuous :
